@@ -1,6 +1,6 @@
 """C02 rings grouped into a valid polygon set (partly decided: transition of coincident twins, parent table and
 hole/parent pairing, polygon assembly, prev_in_result table)."""
-from rules import booltables as bt, cerules, oprules
+from rules import booltables as bt, cerules, oprules, walkrules
 
 LEVEL = 'other'
 EXPLANATION = __doc__
@@ -12,3 +12,8 @@ def run(ctx, rep):
     cerules.check_parent(ctx, rep)
     oprules.check_assemble(ctx, rep)
     bt.check_prev(ctx, rep)
+    walkrules.check_result_events(ctx, rep)
+    walkrules.check_other_pos(ctx, rep)
+    walkrules.check_walk(ctx, rep)
+    walkrules.check_next_pos(ctx, rep)
+    walkrules.check_mark(ctx, rep)
